@@ -130,6 +130,9 @@ pub enum Op {
     SelectionStatus { thread: u32, limit: Option<u32> },
     List,
     Get { thread: u32 },
+    /// message + run_spawned + a real-looking session stream (started, `deltas` text deltas, ended)
+    /// + optional snapshot file (0 none, 1 valid, 2 corrupt, 3 of another session) + run_ended
+    RunWithReply { thread: u32, size: u32, deltas: u32, snapshot: u32 },
     /// operations aimed at a thread id that does not exist
     UnknownThread { which: u32 },
     /// raw session-stream frames appended straight to the log by this actor (cross-stream noise)
@@ -172,6 +175,7 @@ impl Op {
             Op::SelectionStatus { .. } => "selection_status",
             Op::List => "list",
             Op::Get { .. } => "get",
+            Op::RunWithReply { .. } => "run_with_reply",
             Op::UnknownThread { .. } => "unknown_thread",
             Op::RawSession { .. } => "raw_session",
         }
@@ -750,6 +754,79 @@ res.acked_ids.push(m.clone());
                         self.ack(&id, op.name());
 res.acked_ids.push(id);
                         res.ok = res.err.is_none();
+                    }
+                    Err(e) => res.err = Some(e),
+                }
+            }
+            Op::RunWithReply { thread, size, deltas, snapshot } => {
+                let t = thread_or_skip!(*thread);
+                let content = content_of(actor, index, *size);
+                let m = match store.append_message(&t, who.clone(), origin.clone(), content) {
+                    Ok(id) => id,
+                    Err(e) => {
+                        res.err = Some(e);
+                        return res;
+                    }
+                };
+                self.ack(&m, op.name());
+                res.acked_ids.push(m.clone());
+                self.reg.lock().unwrap().messages.entry(t.clone()).or_default().push(m.clone());
+                let run = self.new_run_id(actor);
+                match store.append_run_spawned(&t, &m, &run, who.clone(), origin.clone()) {
+                    Ok(id) => {
+                        self.ack(&id, op.name());
+                        res.acked_ids.push(id);
+                    }
+                    Err(e) => {
+                        res.err = Some(e);
+                        return res;
+                    }
+                }
+                self.reg.lock().unwrap().runs.entry(t.clone()).or_default().push((m.clone(), run.clone()));
+                // the run's session stream, as run_session would log it
+                let mut frames: Vec<rip_kernel::Event> = Vec::new();
+                let mut seq = 0u64;
+                let mut push = |kind: rip_kernel::EventKind, frames: &mut Vec<rip_kernel::Event>| {
+                    frames.push(rip_kernel::Event { id: format!("{run}-f{seq}"), session_id: run.clone(), timestamp_ms: 1, seq, kind });
+                    seq += 1;
+                };
+                push(rip_kernel::EventKind::SessionStarted { input: "x".into() }, &mut frames);
+                for d in 0..*deltas {
+                    push(rip_kernel::EventKind::OutputTextDelta { delta: format!("reply{d}-{} ", index % 7) }, &mut frames);
+                    if d % 3 == 1 {
+                        push(rip_kernel::EventKind::ToolStdout { tool_id: "t".into(), chunk: "noise".into() }, &mut frames);
+                    }
+                }
+                push(rip_kernel::EventKind::SessionEnded { reason: "completed".into() }, &mut frames);
+                for f in &frames {
+                    if let Err(e) = st.log.append(f) {
+                        res.err = Some(e.to_string());
+                        return res;
+                    }
+                }
+                match snapshot % 4 {
+                    1 => {
+                        let _ = rip_log::write_snapshot(self.dirs.snapshots_dir(), &run, &frames);
+                    }
+                    2 => {
+                        let _ = std::fs::create_dir_all(self.dirs.snapshots_dir());
+                        let _ = std::fs::write(self.dirs.snapshots_dir().join(format!("{run}.json")), b"[{\"broken\":");
+                    }
+                    3 => {
+                        // a well-formed snapshot that belongs to another session
+                        let other: Vec<rip_kernel::Event> = frames
+                            .iter()
+                            .map(|f| rip_kernel::Event { session_id: "someone-else".into(), ..f.clone() })
+                            .collect();
+                        let _ = rip_log::write_snapshot(self.dirs.snapshots_dir(), &run, &other);
+                    }
+                    _ => {}
+                }
+                match store.append_run_ended(&t, &m, &run, "completed".into(), who, origin) {
+                    Ok(id) => {
+                        self.ack(&id, op.name());
+                        res.acked_ids.push(id);
+                        res.ok = true;
                     }
                     Err(e) => res.err = Some(e),
                 }
